@@ -208,13 +208,17 @@ func (e *rtEnv) lseenOf(prog string) int64 {
 }
 
 func (e *rtEnv) sendLine(text string) {
+	// every running program either finishes the line (its last statement bumps lseen) or stops at
+	// a runtime error (its error counter moves): wait for one of the two, not for a fixed time
 	before := map[string]int64{}
+	errsBefore := map[string]int64{}
 	for p := range e.rt.VerifHandles() {
 		before[p] = e.lseenOf(p)
+		errsBefore[p] = expvarMapInt("prog_runtime_errors_total", p)
 	}
 	e.lines <- logline.New(context.Background(), "log", text)
 	e.sent++
-	deadline := time.Now().Add(3 * time.Second)
+	deadline := time.Now().Add(30 * time.Second)
 	// the dispatcher counts the line after taking it off the channel
 	base, _ := strconv.ParseInt(e.base["lines_total"], 10, 64)
 	for time.Now().Before(deadline) {
@@ -225,12 +229,7 @@ func (e *rtEnv) sendLine(text string) {
 		time.Sleep(100 * time.Microsecond)
 	}
 	for p, b := range before {
-		for e.lseenOf(p) <= b && time.Now().Before(deadline) {
-			// a version that hits a runtime error never reaches its last statement
-			if e.rt.VerifRuntimeError(p) != "" {
-				time.Sleep(2 * time.Millisecond)
-				break
-			}
+		for e.lseenOf(p) <= b && expvarMapInt("prog_runtime_errors_total", p) <= errsBefore[p] && time.Now().Before(deadline) {
 			time.Sleep(200 * time.Microsecond)
 		}
 	}
